@@ -1123,7 +1123,7 @@ C01_EDGE_K = list(range(4, 17))
 
 
 def c01_edge_lengths(k):
-    return list(range(2 ** k - 17, 2 ** k + 2))
+    return list(range(max(0, 2 ** k - 17), 2 ** k + 2))
 
 
 def c01_length_class_cases(ctx, full):
@@ -1147,7 +1147,7 @@ def c01_length_class_cases(ctx, full):
             for n in c01_edge_lengths(j):
                 add(ctx.rbytes(base + n), "-", "tail=2^%d" % j)
     # as non-final chunks: three reads of L bytes, then a few bytes more
-    ls = [n for k in C01_EDGE_K for n in c01_edge_lengths(k) if n <= BIG]
+    ls = [n for k in C01_EDGE_K for n in c01_edge_lengths(k) if 1 <= n <= BIG]   # a piece of 0 bytes is the end of input
     for L in (ls if full else sorted(set(rng.sample(ls, 36) + [rng.randrange(4081, 4097), rng.randrange(2 ** 15 - 16, 2 ** 15 + 1)]))):
         tail = rng.choice([0, 1, rng.randrange(0, 40)])
         add(ctx.rbytes(3 * L + tail), "c%d,c%d,c%d" % (L, L, L), "piece")
